@@ -11,16 +11,16 @@ from extract import ExtractionError
 
 POSMAP = "prqlc/prqlc/src/sql/pq/positional_mapping.rs"
 
-LABELS = ["PM1", "PM2", "PM3", "PM4", "PM5"]
-FUNCTIONS = ["select_arm", "aggregate_arm", "apply_active_mapping", "activate_mapping"]
+LABELS = ["PM1", "PM2", "PM3", "PM4", "PM5", "PM6", "PM6i", "PM7", "PM7i"]
+FUNCTIONS = ["select_arm", "aggregate_arm", "apply_active_mapping", "activate_mapping", "add_columns"]
+ANCHOR = "prqlc/prqlc/src/sql/pq/anchor.rs"
 RLIMIT = 60
 
 ASSUMED = [
     {"what": "opaque external types", "keys": ["pub struct Opaque"]},
-    {"what": "the local closure add_columns(columns, cids) is external with the contract its text has: it appends the ids of cids that the requirements mark as selected (all of "
-             "them when there are no requirements): selected(), uninterpreted; Vec::clear empties; `mapping.iter().any(|idx| *idx >= output.len())` and "
-             "`mapping.iter().map(|idx| output[*idx]).collect()` are any_out_of_range() / pick()",
-     "keys": ["fn add_columns", "spec fn selected", "fn clear_cids", "fn any_out_of_range", "fn pick", "struct PositionalMapper", "struct MapShim", "fn view", "fn remove"]},
+    {"what": "Vec::clear empties, Vec::extend_from_slice appends the slice, CId == CId compares the ids; `mapping.iter().any(|idx| *idx >= output.len())` and "
+             "`mapping.iter().map(|idx| output[*idx]).collect()` are any_out_of_range() / pick(); Complexity is opaque",
+     "keys": ["fn clear_cids", "fn any_out_of_range", "fn pick", "struct PositionalMapper", "struct MapShim", "fn view", "fn remove", "fn extend_from_cids", "fn cid_eq"]},
 ]
 TRUSTED = [
     "oracle (C01 / C05 / C07): UNION / EXCEPT / INTERSECT pair the i-th column of the top with the i-th column of the bottom, so the list of top columns recorded for a set "
@@ -36,10 +36,15 @@ verus! {
 """ + common_rq.OPAQUE + r"""
 #[derive(Clone, Copy)]
 pub struct CId(pub usize);
-pub type Requirements = OpaqueT;
-pub uninterp spec fn selected(req: Option<Requirements>, cids: Seq<CId>) -> Seq<CId>;
-#[verifier::external_body]
-pub fn add_columns(columns: &mut Vec<CId>, cids: &Vec<CId>, Ghost(req): Ghost<Option<Requirements>>) ensures final(columns)@ == old(columns)@ + selected(req, cids@), { unimplemented!() }
+pub type Complexity = OpaqueT;
+#[verifier::external_body] pub fn cid_eq(a: &CId, b: &CId) -> (r: bool) ensures r == (a.0 == b.0), { unimplemented!() }
+#[verifier::external_body] pub fn extend_from_cids(v: &mut Vec<CId>, s: &Vec<CId>) ensures final(v)@ == old(v)@ + s@, { unimplemented!() }
+// C05 / C07 oracle: the requirements mark a column as SELECTed when one of its entries says so
+pub open spec fn sel(req: Requirements, id: CId) -> bool { exists|i: int| 0 <= i < req.0@.len() && (#[trigger] req.0@[i]).selected && req.0@[i].col.0 == id.0 }
+pub open spec fn keep(req: Requirements, cids: Seq<CId>) -> Seq<CId> decreases cids.len() {
+    if cids.len() == 0 { Seq::<CId>::empty() } else { let sub = keep(req, cids.drop_last()); if sel(req, cids.last()) { sub.push(cids.last()) } else { sub } }
+}
+pub open spec fn selected(req: Option<Requirements>, cids: Seq<CId>) -> Seq<CId> { match req { Some(r) => keep(r, cids), None => cids } }
 #[verifier::external_body] pub fn clear_cids(v: &mut Vec<CId>) ensures final(v)@.len() == 0, { unimplemented!() }
 #[verifier::external_body]
 pub fn any_out_of_range(mapping: &Vec<usize>, n: usize) -> (r: bool) ensures r == (exists|i: int| 0 <= i < mapping@.len() && #[trigger] mapping@[i] >= n), { unimplemented!() }
@@ -66,21 +71,69 @@ def _arm(X, start, name):
     a = X.arm_body(POSMAP, "compute_positional_mappings", start, name=name)
     a.drop_logging()
     a.rewrite_re("R5", r"\bcolumns\.clear\(\)", "clear_cids(columns)", count=None, why="Vec::clear")
-    a.rewrite_re("R5", r"\badd_columns\(&mut columns, (\w+)\)", r"add_columns(columns, \1, Ghost(req))", count=None, why="the local closure add_columns (captures the requirements)")
+    a.rewrite_re("R5", r"\badd_columns\(&mut columns, (\w+)\)", r"add_columns(columns, \1, requirements)", count=None, why="the local closure add_columns captures `requirements`: a parameter of the function it becomes")
     return a
 
 
 def build(X):
     sa = _arm(X, "Transform::Select(cids) =>", "select_arm")
-    sa.text = ("pub fn select_arm(columns: &mut Vec<CId>, cids: &Vec<CId>, Ghost(req): Ghost<Option<Requirements>>)\n"
-               "    ensures final(columns)@ == selected(req, cids@), // @PM1\n"
+    sa.text = ("pub fn select_arm(columns: &mut Vec<CId>, cids: &Vec<CId>, requirements: Option<&Requirements>)\n"
+               "    ensures final(columns)@ == selected(opt_deref(requirements), cids@), // @PM1\n"
                "{\n    " + sa.text + "\n}\n")
     aa = _arm(X, "Transform::Aggregate {", "aggregate_arm")
-    aa.text = ("pub fn aggregate_arm(columns: &mut Vec<CId>, partition: &Vec<CId>, compute: &Vec<CId>, Ghost(req): Ghost<Option<Requirements>>)\n"
+    aa.text = ("pub fn aggregate_arm(columns: &mut Vec<CId>, partition: &Vec<CId>, compute: &Vec<CId>, requirements: Option<&Requirements>)\n"
                "    ensures\n"
                "        // an aggregation outputs its partition columns, then the computed ones\n"
-               "        final(columns)@ == selected(req, partition@) + selected(req, compute@), // @PM2\n"
+               "        final(columns)@ == selected(opt_deref(requirements), partition@) + selected(opt_deref(requirements), compute@), // @PM2\n"
                "{\n    " + aa.text + "\n}\n")
+    # ---- the closure add_columns and the Requirements method it filters with
+    whole = X.fn(POSMAP, "compute_positional_mappings")
+    mc = re.search(r"let add_columns = \|columns: &mut Vec<CId>, cids: &\[CId\]\| \{\n(.*?)\n    \};", whole.text, re.S)
+    if not mc:
+        raise ExtractionError("compute_positional_mappings: closure `let add_columns = |columns, cids| { .. };` not recognised")
+    body = mc.group(1)
+    mf = re.search(r"columns\.extend\(cids\.iter\(\)\.filter\(\|cid\| (\w+)\.(\w+)\(cid\)\)\);", body)
+    if not mf:
+        raise ExtractionError("add_columns: `columns.extend(cids.iter().filter(|cid| REQ.METHOD(cid)));` not recognised")
+    recv, method = mf.group(1), mf.group(2)
+    loop = ("let ghost verif_c0 = columns@;\n            let mut verif_k: usize = 0;\n            while verif_k < cids.len()\n"
+            "                invariant verif_k <= cids@.len(), columns@ == verif_c0 + keep(*%(r)s, cids@.take(verif_k as int)), // @PM6i\n"
+            "                decreases cids@.len() - verif_k,\n            {\n"
+            "                let cid = &cids[verif_k];\n"
+            "                proof { assert(cids@.take(verif_k + 1).drop_last() =~= cids@.take(verif_k as int)); }\n"
+            "                verif_k = verif_k + 1;\n"
+            "                if %(r)s.%(m)s(cid) { columns.push(*cid); }\n            }\n"
+            "            proof { assert(cids@.take(cids@.len() as int) =~= cids@); }") % {"r": recv, "m": method}
+    body = body.replace(mf.group(0), loop)
+    body = re.sub(r"columns\.extend_from_slice\(cids\);", "extend_from_cids(columns, cids);", body)
+    ac0 = X.slice(POSMAP, "compute_positional_mappings", "let add_columns =", "};", name="add_columns")
+    ac0.rewrites.append({"rule": "slice", "what": "the closure `add_columns` of compute_positional_mappings as fn add_columns(columns, cids, requirements): the captured `requirements` is a parameter; &[CId] -> &Vec<CId> (R6)"})
+    ac0.rewrites.append({"rule": "R14", "what": "`columns.extend(cids.iter().filter(|cid| %s.%s(cid)))` desugared to the loop it is (in order; each element pushed iff the predicate holds), with the invariant PM6i" % (recv, method)})
+    ac0.rewrites.append({"rule": "R5", "what": "columns.extend_from_slice(cids) -> extend_from_cids (shim: appends the slice)"})
+    ac0.text = ("pub fn add_columns(columns: &mut Vec<CId>, cids: &Vec<CId>, requirements: Option<&Requirements>)\n"
+                "    ensures final(columns)@ == old(columns)@ + selected(opt_deref(requirements), cids@), // @PM6\n"
+                "{\n" + body + "\n}\n")
+    pm = X.fn(ANCHOR, method, after="impl Requirements").pub_all()
+    mp = re.search(r"self\.0\.iter\(\)\.any\(\|r\| (.*?)\)\s*\n", pm.text, re.S)
+    if not mp:
+        raise ExtractionError("Requirements::%s: `self.0.iter().any(|r| ..)` not recognised" % method)
+    pred = re.sub(r"&r\.col == id\b", "cid_eq(&r.col, id)", mp.group(1))
+    pm.rewrite("R14", mp.group(0).rstrip("\n").strip(),
+               ("let mut verif_k: usize = 0;\n        while verif_k < self.0.len()\n"
+                "            invariant verif_k <= self.0@.len(), forall|j: int| 0 <= j < verif_k ==> !((#[trigger] self.0@[j]).selected && self.0@[j].col.0 == id.0), // @PM7i\n"
+                "            decreases self.0@.len() - verif_k,\n        {\n"
+                "            let r = &self.0[verif_k];\n            if %s { return true; }\n            verif_k = verif_k + 1;\n        }\n        false") % pred,
+               why="`self.0.iter().any(|r| P)` desugared to the short-circuiting loop it is; `&r.col == id` is cid_eq (R5)")
+    pm.ret_name("r")
+    pm.contract("""
+        ensures
+            // C05 / C07: the columns a set operation pairs by position are the SELECTed ones - a column that is only required as the input of another column of
+            // the same SELECT is not an output position
+            r == sel(*self, *id), // @PM7
+    """)
+    req_ty = ("pub struct Requirement { pub col: CId, pub max_complexity: Complexity, pub selected: bool }\npub struct Requirements(pub Vec<Requirement>);\n"
+              "pub open spec fn opt_deref(r: Option<&Requirements>) -> Option<Requirements> { match r { Some(x) => Some(*x), None => None } }\n"
+              "impl Requirements {\n" + pm.text + "\n}\n")
     am = X.fn(POSMAP, "apply_active_mapping").pub_all().drop_logging()
     am.rewrite_re("R5", r"mapping\.iter\(\)\.any\(\|idx\| \*idx >= output\.len\(\)\)", "any_out_of_range(mapping, output.len())", count=None, why="Iterator::any")
     am.rewrite_re("R5", r"mapping\.iter\(\)\.map\(\|idx\| output\[\*idx\]\)\.collect\(\)", "pick(mapping, &output)", count=None, why="iterator chain: the mapped columns")
@@ -101,7 +154,7 @@ def build(X):
             // the previous instance would cut or reorder the columns of this one)
             final(self).active_positional_mapping == (if old(self).relation_positional_mapping.view().dom().contains(*riid) { Some(old(self).relation_positional_mapping.view()[*riid]) } else { None::<Vec<usize>> }), // @PM5
     """)
-    return PRELUDE + sa.text + "\n" + aa.text + "\nimpl PositionalMapper {\n" + am.text + "\n" + ac.text + "\n}\n} // verus!\nfn main() {}\n"
+    return PRELUDE + req_ty + ac0.text + "\n" + sa.text + "\n" + aa.text + "\nimpl PositionalMapper {\n" + am.text + "\n" + ac.text + "\n}\n} // verus!\nfn main() {}\n"
 
 
 # ----------------------------------------------------------------------------- replay on the real compiler
@@ -111,6 +164,8 @@ CASES = [
     ("from a\ngroup g (aggregate {n = count this})\nappend (from b | select {g, n})\nsort {g}\n", [("p", 2), ("q", 1), ("z", 9)]),
     ("from a\ngroup g (aggregate {n = count this, s = sum x})\nappend (from b | select {g, n, s = n})\nfilter n > 1\nsort {g}\n", [("p", 2, 3), ("z", 9, 9)]),
     ("from a\nselect {g, x}\nappend (from b | select {g, n})\nsort {g, x}\n", [("p", 1), ("p", 2), ("q", 5), ("z", 9)]),
+    # a derived column that is only the input of another derived column is not an output position of the top
+    ("from a\nselect {g, x}\nderive {c = x + 1}\nderive {d = c * 2}\nappend (from b | select {g, x = n, c = n, d = n})\nselect {d}\nsort {d}\n", [(4,), (6,), (9,), (12,)]),
 ]
 
 
@@ -152,7 +207,8 @@ def replay(failure):
             if r["failing"]:
                 return r
         return {"failing": False}
-    for src, exp in CASES:
+    # the first two cases are the ones of the recorded finding PM2 (aggregate): they are the replay of PM2 only
+    for src, exp in (CASES if failure.get("obligation", "").endswith("PM2") else CASES[2:]):
         r = _try(src, exp)
         if r["failing"]:
             return r
@@ -163,3 +219,19 @@ def rerun(doc):
     if doc.get("replay_kind") == "rows5":
         return _try5(doc["input"], [tuple(r) for r in doc["expected"]])
     return _try(doc["input"], [tuple(r) for r in doc["expected"]])
+
+
+SWEEP_DOC = "set operations after select / derive chains / aggregates, and a wider relation instance after a mapped one: compiled for SQLite by the real prqlc and executed"
+
+
+def sweep():
+    out = []
+    for i, (src, exp) in enumerate(CASES):
+        r = _try(src, exp)
+        r["obligation"] = "positional_map.PM2" if i < 2 else "positional_map.PM7" if "derive" in src else "positional_map.PM1"
+        out.append(r)
+    for src, exp in CASES5:
+        r = _try5(src, exp)
+        r["obligation"] = "positional_map.PM5"
+        out.append(r)
+    return out
